@@ -71,6 +71,10 @@ impl Monitor {
     pub fn commits_len(&self) -> usize {
         self.commits.len()
     }
+    /// The newest block the node delivered (it is in its store: it was processed before).
+    pub fn last_commit(&self) -> Option<Block> {
+        self.commits.last().cloned()
+    }
     pub fn votes_len(&self) -> usize {
         self.own_votes.len()
     }
